@@ -373,6 +373,104 @@ func configs(tier string) []cfg {
 	return out
 }
 
+// globalRebind: the package-level wrappers must follow Init: every sequence of
+// <=2 wrapper operations before and after re-pointing the global disk at a disk
+// of another size (and another kind), against two independent register arrays.
+func globalRebind(acc *ev.Acc) {
+	type gop struct {
+		k string
+		a uint64
+	}
+	ops := []gop{{"Size", 0}, {"W", 0}, {"R", 0}, {"W", 1}, {"R", 1}, {"Barrier", 0}}
+	var seqs [][]gop
+	seqs = append(seqs, nil)
+	for _, a := range ops {
+		seqs = append(seqs, []gop{a})
+		for _, b := range ops {
+			seqs = append(seqs, []gop{a, b})
+		}
+	}
+	kinds := []string{"mem", "file"}
+	for _, k1 := range kinds {
+		for _, k2 := range kinds {
+			for n1 := uint64(0); n1 <= 2; n1++ {
+				for n2 := uint64(0); n2 <= 2; n2++ {
+					if n1 == n2 && k1 == k2 {
+						continue
+					}
+					for _, s1 := range seqs {
+						for _, s2 := range seqs {
+							d1, d2 := mk(k1, n1), mk(k2, n2)
+							m1, m2 := make([]string, n1), make([]string, n2)
+							for i := range m1 {
+								m1[i] = "0"
+							}
+							for i := range m2 {
+								m2[i] = "0"
+							}
+							var bad string
+							runSeq := func(im *impl, m []string, seq []gop, phase string) {
+								for _, o := range seq {
+									if bad != "" {
+										return
+									}
+									if im.k != nil {
+										simunix.K = im.k
+									}
+									var got string
+									p := libh.Try(func() {
+										switch o.k {
+										case "Size":
+											got = fmt.Sprint(disk.Size())
+										case "W":
+											disk.Write(o.a, libh.Pat("A"))
+										case "R":
+											got = libh.Classify(disk.Read(o.a))
+										case "Barrier":
+											disk.Barrier()
+										}
+									})
+									want, wantRefused := "", false
+									switch o.k {
+									case "Size":
+										want = fmt.Sprint(len(m))
+									case "W":
+										if o.a >= uint64(len(m)) {
+											wantRefused = true
+										} else {
+											m[o.a] = "A"
+										}
+									case "R":
+										if o.a >= uint64(len(m)) {
+											wantRefused = true
+										} else {
+											want = m[o.a]
+										}
+									}
+									if (p != "") != wantRefused || (p == "" && got != want) {
+										bad = fmt.Sprintf("%s: wrapper %s(%d) gives %q (refused=%q), the disk currently installed by Init has %d blocks and the reference says %q (refused=%v)", phase, o.k, o.a, got, p, len(m), want, wantRefused)
+									}
+								}
+							}
+							disk.Init(d1.d)
+							runSeq(d1, m1, s1, "after Init(d1)")
+							disk.Init(d2.d)
+							runSeq(d2, m2, s2, "after Init(d2)")
+							disk.Init(d1.d)
+							runSeq(d1, m1, []gop{{"Size", 0}, {"R", 0}}, "after Init(d1) again")
+							acc.Add("transitions", int64(len(s1)+len(s2)+2))
+							acc.Add("global_rebind_histories", 1)
+							if bad != "" {
+								acc.Violate(ev.Violation{Key: fmt.Sprintf("C09/global-rebind/%s%d-%s%d/%v/%v", k1, n1, k2, n2, s1, s2), Msg: fmt.Sprintf("global wrappers: Init(%s disk of %d blocks); %v; Init(%s disk of %d blocks); %v: %s", k1, n1, s1, k2, n2, s2, bad), Replay: map[string]any{"cfg": cfg{N: 0}, "path": []int{}, "mode": "global-rebind"}})
+							}
+						}
+					}
+				}
+			}
+		}
+	}
+}
+
 type replayFile struct {
 	Replay struct {
 		Cfg  cfg   `json:"cfg"`
@@ -449,6 +547,9 @@ func main() {
 				})
 			}
 		}
+		if i == n-1 {
+			globalRebind(acc)
+		}
 		acc.Add("traces_validated_against_impl", validated)
 		acc.EmitChild()
 		return
@@ -466,7 +567,7 @@ func main() {
 	}
 	os.Exit(acc.Done(ev.Finish{
 		Prop: "C09", Tier: *tier, Level: "model_checking", Start: start,
-		Rule:        "explicit-state BFS over histories of Write(a,A|B), Write(a,buf_i), Write(0,len 0/4095/4097), Read(a), ReadTo(a,buf_i), Mutate(buf_i), Mutate(last passed/returned slice), Size, Barrier with a in {0..N, 2^63, 2^64-1} on disks of N blocks; each history replayed on fresh real MemDisk, FileDisk (over simunix), the async_disk aliases and the global wrappers; state key = reference-model state (pattern id per block, per caller buffer, last slice); after the last operation the result, refusal, full disk dump, caller buffers and Size are compared with the register-array reference; simunix traces of the file disk replayed call by call on the real kernel",
+		Rule:        "explicit-state BFS over histories of Write(a,A|B), Write(a,buf_i), Write(0,len 0/4095/4097), Read(a), ReadTo(a,buf_i), Mutate(buf_i), Mutate(last passed/returned slice), Size, Barrier with a in {0..N, 2^63, 2^64-1} on disks of N blocks; each history replayed on fresh real MemDisk, FileDisk (over simunix), the async_disk aliases and the global wrappers; state key = reference-model state (pattern id per block, per caller buffer, last slice); after the last operation the result, refusal, full disk dump, caller buffers and Size are compared with the register-array reference; simunix traces of the file disk replayed call by call on the real kernel; plus every sequence of <=2 wrapper operations before and after re-pointing the global disk (Init) at a disk of another size or kind",
 		Assumptions: []string{"simunix models the kernel for FileDisk (validated per history by replay on the real kernel)", "ReadTo buffers are block-sized (a wrong-sized read buffer is outside the stated property)"},
 	}))
 }
